@@ -721,12 +721,13 @@ class Lemmas:
         allowed_f = {FM + "::push_frame", FM + "::pop_frame"}
         # swap_vars exchanges two whole maps (mem::swap of the two fields): each keeps its own marks <= len; pinned by the swap rules
         SW = "eval_context::EvalContext::swap_vars"
-        wv = set(x[0].name.split("::{closure")[0] for x in P.field_writers(FM, "values") if not (x[3] == "mem_whole" and x[0].name == SW))
-        wf = set(x[0].name.split("::{closure")[0] for x in P.field_writers(FM, "frame_stack") if not (x[3] == "mem_whole" and x[0].name == SW))
+        wv = set(x[0].name.split("::{closure")[0] for x in P.field_writers(FM, "values") if not (x[3] in ("mem_whole", "call_dest_whole", "assign_whole") and x[0].name == SW))
+        wf = set(x[0].name.split("::{closure")[0] for x in P.field_writers(FM, "frame_stack") if not (x[3] in ("mem_whole", "call_dest_whole", "assign_whole") and x[0].name == SW))
         sw = P.body(SW)
         if sw is not None:
             cs = canon_calls(P, sw)
-            ok &= self._ob("FRAMES", "swap_vars-exchanges-two-whole-maps", cs == [("mem::swap", ["self.vars", "self.alt_vars"])], str(cs), "swap_vars does %s" % cs)
+            from .iter_rules import swap_vars_exchanges
+            ok &= self._ob("FRAMES", "swap_vars-exchanges-two-whole-maps", swap_vars_exchanges(P, sw), str(cs), "swap_vars does %s" % cs)
         ok &= self._ob("FRAMES", "who-writes-values", wv <= allowed_v, str(sorted(wv)), "FramedMap.values mutated in %s" % sorted(wv - allowed_v))
         ok &= self._ob("FRAMES", "who-writes-frame_stack", wf <= allowed_f, str(sorted(wf)), "FramedMap.frame_stack mutated in %s" % sorted(wf - allowed_f))
         pf = P.body(FM + "::push_frame")
